@@ -60,6 +60,39 @@ pub struct StateWrapper<Msg, State> {
 }
 
 /// Wrapper for timers.
+/// Read-only accessors for verification (the fields are private).
+#[cfg(feature = "getong_stateright_verif")]
+impl<Msg, State> StateWrapper<Msg, State> {
+    /// The state of the wrapped actor.
+    pub fn verif_wrapped_state(&self) -> &State {
+        &self.wrapped_state
+    }
+    /// Messages sent but not yet acknowledged: `(sequencer, destination, message)`.
+    pub fn verif_pending_ack(&self) -> Vec<(Sequencer, Id, &Msg)> {
+        let mut pending: Vec<_> = self
+            .msgs_pending_ack
+            .iter()
+            .map(|(seq, (dst, msg))| (*seq, *dst, msg))
+            .collect();
+        pending.sort_by_key(|(seq, _, _)| *seq);
+        pending
+    }
+    /// The highest sequencer handed to the wrapped actor per source.
+    pub fn verif_last_delivered(&self) -> Vec<(Id, Sequencer)> {
+        let mut last: Vec<_> = self
+            .last_delivered_seqs
+            .iter()
+            .map(|(src, seq)| (*src, *seq))
+            .collect();
+        last.sort();
+        last
+    }
+    /// The sequencer the next sent message will get.
+    pub fn verif_next_send_seq(&self) -> Sequencer {
+        self.next_send_seq
+    }
+}
+
 #[derive(Clone, Debug, Eq, Hash, PartialEq, Serialize)]
 pub enum TimerWrapper<Timer> {
     Network,
